@@ -299,3 +299,104 @@ def run(prog, chk):
     chk.extra_cov["statements"] = len(m.statements)
     chk.extra_cov["bind_column_sites"] = len(m.sites)
     chk.extra_cov["raised_messages"] = sorted(raised)
+
+    r5 = chk.rule("R5-container-scoping", "loop numbers and item names are unique only within a container: in every statement (and "
+                  "sub-select) each reference to loop / loop_item / item_value is tied to a container - its container_id is equated "
+                  "with a parameter, or joined on container_id to a reference that is", floor=15)
+    n_refs = 0
+    stmts = dict((f, e["sql"]) for f, e in m.statements.items())
+    # statements prepared ad hoc (no dedicated field), e.g. GET_LOOP_VALUES_SQL
+    for fn in prog.all_functions():
+        for (b, i, r, n) in fn.calls_to("sqlite3_prepare_v2"):
+            if len(n.get("args", [])) > 1:
+                t = literal_text(n["args"][1])
+                if t and t not in stmts.values():
+                    stmts["%s@L%s" % (fn.name, n.get("l"))] = t
+    for name, sql in sorted(stmts.items()):
+        for blk_i, (refs, unanchored) in enumerate(container_scoping(sql)):
+            for (tbl, alias) in refs:
+                n_refs += 1
+                key = "%s#%d:%s%s" % (name, blk_i, tbl, (" " + alias) if alias and alias != tbl else "")
+                if (tbl, alias) in unanchored:
+                    r5.violation("internal/sql.h", name, 0, "unscoped-table:%s:%s" % (name, tbl),
+                                 "in statement %s a reference to `%s`%s is not restricted to a container (no `container_id = ?`, no join on "
+                                 "container_id to a restricted reference) in its query block: loop numbers / names of other containers "
+                                 "match as well.  SQL: %s" % (name, tbl, (" (alias %s)" % alias) if alias and alias != tbl else "", " ".join(sql.split())[:200]))
+                else:
+                    r5.ok(key, "tied to a container")
+    if n_refs < 15:
+        raise Broken("only %d references to container-scoped tables found in the embedded statements" % n_refs)
+
+
+SCOPED_TABLES = ("loop", "loop_item", "item_value", "unnumbered_loop")
+_SQL_KW = {"on", "using", "where", "join", "set", "group", "order", "values", "select", "left", "inner", "natural", "cross", "as", "and", "or", "limit"}
+
+
+def container_scoping(sql):
+    """[(refs, unanchored)] per query block of the statement; refs = [(table, alias)] of container-scoped tables."""
+    low = " ".join(sql.lower().split())
+    blocks = []
+
+    def extract(text):
+        # pull out innermost parenthesised sub-selects first
+        while True:
+            mm = None
+            depth_stack = []
+            for idx, ch in enumerate(text):
+                if ch == "(":
+                    depth_stack.append(idx)
+                elif ch == ")" and depth_stack:
+                    st = depth_stack.pop()
+                    inner = text[st + 1:idx]
+                    if inner.strip().startswith("select") and "(" not in inner.replace("count(*)", "").replace("max(", "max[").replace("(container_id", "[container_id"):
+                        mm = (st, idx, inner)
+                        break
+            if mm is None:
+                break
+            st, idx, inner = mm
+            blocks.append(inner)
+            text = text[:st] + " __sub%d__ " % len(blocks) + text[idx + 1:]
+        blocks.append(text)
+    extract(low)
+    out = []
+    for blk in blocks:
+        refs = []
+        for mm in re.finditer(r"\b(from|join|update|into)\s+(\w+)(?:\s+(?:as\s+)?(\w+))?", blk):
+            tbl, alias = mm.group(2), mm.group(3)
+            if alias in _SQL_KW or alias is None or alias.startswith("__sub"):
+                alias = tbl
+            if tbl in SCOPED_TABLES:
+                refs.append((tbl, alias))
+        if not refs:
+            out.append(([], set()))
+            continue
+        anchored = set()
+        names = {a for (_, a) in refs}
+        # insert with an explicit column list naming container_id: the new row's container is a bound value / selected column
+        mi = re.search(r"\binto\s+(\w+)\s*\(([^)]*)\)", blk)
+        if mi and "container_id" in mi.group(2):
+            anchored.add(mi.group(1))
+        for mm in re.finditer(r"(?:(\w+)\.)?container_id\s*=\s*\?\d*|\?\d*\s*=\s*(?:(\w+)\.)?container_id", blk):
+            a = mm.group(1) or mm.group(2)
+            if a:
+                anchored.add(a)
+            else:
+                # unqualified: resolvable only if one table carries the column, or the tables are joined USING (container_id ..)
+                if len(names) == 1 or re.search(r"using\s*[\(\[][^\)\]]*container_id", blk):
+                    anchored |= names
+        links = [(mm.group(1), mm.group(2)) for mm in re.finditer(r"(\w+)\.container_id\s*=\s*(\w+)\.container_id", blk)]
+        if re.search(r"using\s*[\(\[][^\)\]]*container_id", blk):
+            ns = sorted(names)
+            links += [(ns[k], ns[k + 1]) for k in range(len(ns) - 1)]
+        changed = True
+        while changed:
+            changed = False
+            for (x, y) in links:
+                if x in anchored and y not in anchored:
+                    anchored.add(y)
+                    changed = True
+                if y in anchored and x not in anchored:
+                    anchored.add(x)
+                    changed = True
+        out.append((refs, {(t, a) for (t, a) in refs if a not in anchored}))
+    return out
